@@ -639,22 +639,49 @@ def r115(an: Analysis, rep):
     if not cands:
         raise AnalysisError("LineMapping: no leftover-checking method reached from from_code")
     m = cands[0]
-    self_ = m.params[0]
-    p = m.params[1] if len(m.params) > 1 else None
+    if len(m.params) != 2 or len(dict_fields) != 2:
+        raise AnalysisError(f"{m.qual}: expected (self, offset after the code) and a mapping with two tables")
+    # the method folded over witness mappings as the instruction decoder can leave them: (lines left, extra entries left, code length) -> expected
+    from sa.feval import BlockOutcome, Obj, ObjEval
+    from .line_fold import _ctor, evaluator
+    RAISE = "<raises>"
+    lines_f = next(f.name for f in dict_fields if f.name == "offset_to_line") if any(f.name == "offset_to_line" for f in dict_fields) else dict_fields[0].name
+    extra_f = next(f.name for f in dict_fields if f.name != lines_f)
+    W = [
+        ("nothing left", {}, {}, 8, None),
+        ("the line of dead code behind the last instruction", {8: 7}, {}, 8, (7, ())),
+        ("that line with the redundant entries written at it", {8: 7}, {8: [1, 2]}, 8, (7, (1, 2))),
+        ("that line with one zero entry", {8: 3}, {8: [0]}, 8, (3, (0,))),
+        ("a line at an offset no instruction consumed", {6: 7}, {}, 8, RAISE),
+        ("lines at two offsets behind the code", {8: 7, 10: 8}, {}, 8, RAISE),
+        ("redundant entries at an offset no instruction consumed", {8: 7}, {4: [1]}, 8, RAISE),
+        ("redundant entries left with no line left", {}, {4: [0]}, 8, RAISE),
+        ("redundant entries at two offsets", {8: 7}, {8: [1], 2: [0]}, 8, RAISE),
+    ]
+    bad = {lines_f: [], extra_f: [], "value": []}
+    for name, ls, xs, n, want in W:
+        ev = evaluator(an, m.module, (3, 9))
+        obj = Obj({"__cls__": lm.name, lines_f: dict(ls), extra_f: {k: list(v) for k, v in xs.items()}})
+        try:
+            got = ev.call_method(m.node, obj, n)
+            if isinstance(got, Obj):
+                got = (got.get("line"), got.get("additional_offsets"))
+        except BlockOutcome:
+            got = RAISE
+        except Exception as ex:  # noqa: BLE001 - a gap of the evaluator, never a verdict
+            raise AnalysisError(f"{m.qual}: not evaluable on the witness mapping '{name}' ({type(ex).__name__}: {ex})")
+        if got != want or (want not in (None, RAISE) and not isinstance(got[1], tuple)):
+            which = "value" if want != RAISE else (extra_f if (set(xs) - {n}) else lines_f)
+            bad[which].append(f"{name} (lines left {ls}, extra entries left {xs}, code of {n} bytes): {'accepted, result ' + repr(got) if want == RAISE else 'gives ' + repr(got) + ', expected ' + repr(want)}")
     for f in dict_fields:
-        ok = False
-        for n in ast.walk(m.node):
-            if isinstance(n, ast.If) and any(isinstance(b, ast.Raise) for b in n.body):
-                for c in ast.walk(n.test):
-                    if isinstance(c, ast.Compare) and len(c.ops) == 1 and isinstance(c.ops[0], ast.NotEq):
-                        l, r = c.left, c.comparators[0]
-                        for a, b in ((l, r), (r, l)):
-                            if (isinstance(b, ast.Set) and len(b.elts) == 1 and isinstance(b.elts[0], ast.Name) and b.elts[0].id == p
-                                    and any(isinstance(x, ast.Attribute) and x.attr == f.name for x in ast.walk(a))):
-                                ok = True
-        rep.add("R11.5", f"{m.qual}::leftover keys of {f.name} rejected", ok, loc(m.module, m.node),
-                f"raises unless the remaining keys of {f.name} are empty or exactly {{{p}}}" if ok
-                else f"leftover entries of {f.name} (line-table entries no instruction consumed) are not rejected: they are silently dropped")
+        b_ = bad[f.name]
+        rep.add("R11.5", f"{m.qual}::leftover keys of {f.name} rejected", not b_, loc(m.module, m.node),
+                f"on {sum(1 for w in W if w[4] == RAISE)} witness mappings with entries no instruction consumed the method raises" if not b_
+                else f"{b_[0]}: line-table entries no instruction consumed are silently dropped")
+    b_ = bad["value"]
+    rep.add("R11.5", f"{m.qual}::the trailing line keeps its line and its redundant entries", not b_, loc(m.module, m.node),
+            "on 4 witness mappings the result is None / (line, entries written at the offset behind the code)" if not b_
+            else f"{b_[0]}: the entries CPython wrote behind the last instruction (statements removed as unreachable) are not kept, to_code() writes another table")
     # and the decoder really calls it after decoding the instructions
     top_calls = any(q == m.qual for (c, q) in it.call_edges)
     rep.add("R11.5", f"{m.qual}::called by the decoder", top_calls, loc(m.module, m.node), "called from the decode closure" if top_calls else "never called")
